@@ -61,3 +61,36 @@ def exp_inF(f, x):
     xr = real_of(x)
     return ite(x_isnan(x), True, ite(x_isinf(x), False,
                is_pow2_c(xr._c) and not xr._s and f._emin <= e_of(xr) and e_of(xr) <= f._emax))
+
+
+# ---------------------------------------------------------------------------
+# ordinal stepping (OrdinalFormat.next_up / next_down / _next_towards / _next_away) on MPBFloatFormat.
+# Extended ordinal: a finite member has its MPS ordinal, +inf is ord(pos_maxval) + 1, -inf is ord(neg_maxval) - 1.
+
+def mpbfl_xord(f, x):
+    return ite(x._isinf, ite(x._real._s, f._neg_maxval_ord - 1, f._pos_maxval_ord + 1), mps_ord(f._mps_fmt, x._real))
+
+
+def mpbfl_dir_towards(f, x, y):
+    """+1 / -1: the direction from x towards y (an infinite y gives its sign; equal ordinals step down, as the code does)"""
+    return ite(y._isinf, ite(y._real._s, -1, 1), ite(mpbfl_xord(f, x) < mps_ord(f._mps_fmt, y._real), 1, -1))
+
+
+def mpbfl_step_fails(f, x, d, allow_inf):
+    """the step leaves the finite range and the infinity beyond it is not available"""
+    t = mpbfl_xord(f, x) + d
+    return (t > f._pos_maxval_ord or t < f._neg_maxval_ord) and not (allow_inf and f.enable_inf)
+
+
+def mpbfl_step_post(f, x, d, r):
+    """r is the value one ordinal from x in direction d"""
+    t = mpbfl_xord(f, x) + d
+    inr = f._neg_maxval_ord <= t and t <= f._pos_maxval_ord
+    return {
+        'not_nan': not r._isnan,
+        'finite': inr == fl_finite(r),
+        'B5_step': implies(inr, mps_ord(f._mps_fmt, r._real) == t),
+        'mps_member': implies(inr, mps_inF(f._mps_fmt, r)),
+        'to_pos_inf': implies(t > f._pos_maxval_ord, r._isinf and not r._real._s),
+        'to_neg_inf': implies(t < f._neg_maxval_ord, r._isinf and r._real._s),
+    }
